@@ -38,13 +38,24 @@ structure Minter where
   cap : Option Nat
   deriving Repr, DecidableEq, Inhabited
 
-/-- cw2 contract version as `(name, major, minor, patch)`. -/
+/-- cw2 contract version as `(name, major, minor, patch[-pre])`.  `pre`: the text of a semver pre-release tag
+(`0.13.0-rc.1`); such a version is below its release `0.13.0` and above everything below that (build metadata is not
+modelled). -/
 structure Version where
   name : String
   major : Nat
   minor : Nat
   patch : Nat
+  pre : Option String := none
   deriving Repr, DecidableEq, Inhabited
+
+/-- Comparison key of a release triple: semver precedence between a stored version (with or without a pre-release
+tag) and a *release* is the lexicographic order of these keys. -/
+def relKey (t : Nat × Nat × Nat) : Nat × Nat × Nat := (t.1, t.2.1, 2 * t.2.2 + 1)
+
+/-- Comparison key of a stored version: a pre-release sorts directly below its release. -/
+def Version.key (v : Version) : Nat × Nat × Nat :=
+  (v.major, v.minor, 2 * v.patch + (if v.pre.isSome then 0 else 1))
 
 def CONTRACT_NAME : String := "crates.io:cw20-base"
 def CONTRACT_VERSION : Nat × Nat × Nat := (2, 0, 0)
@@ -214,7 +225,7 @@ def instantiate (m : InstMsg) : Res State := do
     | none => pure none : Res (Option Minter))
   let (mk, logo) ← instMarketing m.marketing
   pure { supply := total, mint := mint, balances := bals, allow := [], allowSp := [],
-         version := ⟨CONTRACT_NAME, 2, 0, 0⟩, marketing := mk, logo := logo }
+         version := ⟨CONTRACT_NAME, 2, 0, 0, none⟩, marketing := mk, logo := logo }
 
 /-! ## execute -/
 
@@ -420,10 +431,10 @@ def verLt (a b : Nat × Nat × Nat) : Bool :=
 `ALLOWANCES_SPENDER` from `ALLOWANCES` (ascending key order; later saves overwrite). -/
 def migrate (s : State) : Res State := do
   check (decide (s.version.name = CONTRACT_NAME)) "wrong_contract"
-  let stored := (s.version.major, s.version.minor, s.version.patch)
-  check (!verLt CONTRACT_VERSION stored) "newer"
-  let v : Version := if verLt stored CONTRACT_VERSION then ⟨CONTRACT_NAME, 2, 0, 0⟩ else s.version
-  if verLt stored (0, 14, 0) then
+  let stored := s.version.key
+  check (!verLt (relKey CONTRACT_VERSION) stored) "newer"
+  let v : Version := if verLt stored (relKey CONTRACT_VERSION) then ⟨CONTRACT_NAME, 2, 0, 0, none⟩ else s.version
+  if verLt stored (relKey (0, 14, 0)) then
     let sp := s.allow.foldl (fun acc (p : (Addr × Addr) × Allowance) => acc.set (p.1.2, p.1.1) p.2) s.allowSp
     pure { s with version := v, allowSp := sp }
   else
